@@ -412,6 +412,30 @@ impl RecLeaf {
         RecLeaf { log, verbose: false, veto_cs: None, veto_level: None }
     }
     fn call<C: tracing_core::Collect + for<'a> LookupSpan<'a>>(&self, kind: LKind, id: u64, ctx: &Context<'_, C>) -> LCall {
+        let mut c = self.call0(kind, id, ctx);
+        // the same chain walked hop by hop through SpanRef::parent(): it has to be the scope
+        // (if not, the walk is appended behind a marker so that the comparison with the expected
+        // scope fails and shows both)
+        if id != 0 {
+            if let Some(s) = ctx.span(&span::Id::from_u64(id)) {
+                let mut walk = vec![s.id().into_u64()];
+                let mut cur = s.parent();
+                while let Some(p) = cur {
+                    walk.push(p.id().into_u64());
+                    if walk.len() > 64 {
+                        break;
+                    }
+                    cur = p.parent();
+                }
+                if walk != c.scope {
+                    c.scope.push(u64::MAX);
+                    c.scope.extend(walk);
+                }
+            }
+        }
+        c
+    }
+    fn call0<C: tracing_core::Collect + for<'a> LookupSpan<'a>>(&self, kind: LKind, id: u64, ctx: &Context<'_, C>) -> LCall {
         LCall {
             seq: next_seq(),
             kind,
